@@ -71,7 +71,7 @@ func floor(s *slip.Scope, f slip.Object, args slip.List, depth int) slip.Values 
 	if 1 < len(args) {
 		div = args[1]
 	}
-	num, div = slip.NormalizeNumber(num, div)
+	num, div = normalizeNumber(num, div)
 
 	switch tn := num.(type) {
 	case slip.Fixnum:
